@@ -1,7 +1,153 @@
 import CB.Driver.Util
+import CB.Model.Int
 namespace CB
 
-/-- operations of property C13 (op names start with `c13.`) -/
-def dispatchC13 : Dispatch := fun _ _ => none
+/-! Driver of property C13.  Every line is printed as `L1 ;; L0`: `L1` = the limb-level model of
+    CB/Model/Int.lean, `L0` = plain `Int` arithmetic on `toInt` (what the property demands). -/
+
+namespace SInt.Drv
+open CB.SInt
+
+/-- `x mod 2^(64 n)` as the hex of the two's-complement limbs -/
+def encI (n : Nat) (x : Int) : String := natToHex ((x % ((B ^ n : Nat) : Int)).toNat)
+/-- `x ∈ [MIN, MAX]` of an `n`-limb `Int` -/
+def inRange (n : Nat) (x : Int) : Bool :=
+  decide (-((B ^ n : Nat) : Int) ≤ 2 * x ∧ 2 * x < ((B ^ n : Nat) : Int))
+def encOpt (n : Nat) (x : Int) : String := if inRange n x then encI n x else "none"
+def bit (b : Bool) : String := if b then "1" else "0"
+def optTok (r : List Nat × Nat) : String :=
+  if r.2 = WMAX then limbsHex r.1 else if r.2 = 0 then "none" else s!"badchoice:{natToHex r.2}"
+def maskOf (s : String) : Option Nat := if s = "1" then some WMAX else if s = "0" then some 0 else none
+
+def lim (n a : String) : Option (List Nat) :=
+  match n.toNat?, hexToNat? a with
+  | some n, some a => some (toLimbs n a)
+  | _, _ => none
+
+def both (l1 l0 : String) : Option String := some (l1 ++ " ;; " ++ l0)
+
+end SInt.Drv
+open CB.SInt CB.SInt.Drv
+
+def dispatchC13 : Dispatch := fun op args =>
+  match op, args with
+  | "c13.add", [n, a, b] =>
+    match lim n a, lim n b with
+    | some x, some y =>
+      let k := x.length
+      let r := iOverflowingAdd x y
+      let c := iCheckedAdd x y
+      let s := toInt x + toInt y
+      both s!"{limbsHex r.1} {choiceTok r.2} {optTok c} {limbsHex (iWrappingAdd x y)}"
+           s!"{encI k s} {bit (!inRange k s)} {encOpt k s} {encI k s}"
+    | _, _ => badArgs
+  | "c13.sub", [n, a, b] =>
+    match lim n a, lim n b with
+    | some x, some y =>
+      let k := x.length
+      let s := toInt x - toInt y
+      both s!"{optTok (iCheckedSub x y)} {limbsHex (iWrappingSub x y)}" s!"{encOpt k s} {encI k s}"
+    | _, _ => badArgs
+  | "c13.neg", [n, a] =>
+    match lim n a with
+    | some x =>
+      let k := x.length
+      let r := iOverflowingNeg x
+      let s := - toInt x
+      -- the forwarding forms `wrapping_neg_if(TRUE/FALSE)` are compared inside the harness
+      let l1 := if iWrappingNegIf x WMAX = iWrappingNeg x ∧ iWrappingNegIf x 0 = x
+        then s!"{limbsHex r.1} {choiceTok r.2} {optTok (iCheckedNeg x)} {limbsHex (iWrappingNeg x)}"
+        else "forms-differ:neg_if"
+      both l1 s!"{encI k s} {bit (!inRange k s)} {encOpt k s} {encI k s}"
+    | none => badArgs
+  | "c13.sign", [n, a] =>
+    match lim n a with
+    | some x =>
+      let k := x.length
+      let v := toInt x
+      let m : Int := ((B ^ k : Nat) : Int)
+      both s!"{choiceTok (isNegative x)} {choiceTok (isPositive x)} {choiceTok (isMin x)} {choiceTok (isMax x)} {limbsHex (absSign x).1}"
+           s!"{bit (decide (v < 0))} {bit (decide (0 < v))} {bit (decide (2 * v = -m))} {bit (decide (2 * v = m - 2))} {natToHex v.natAbs}"
+    | none => badArgs
+  | "c13.from_abs_sign", [n, a, c] =>
+    match lim n a, maskOf c with
+    | some x, some c =>
+      let v : Int := if c = 0 then (val x : Int) else - (val x : Int)
+      both (optTok (newFromAbsSign x c)) (encOpt x.length v)
+    | _, _ => badArgs
+  | "c13.square", [n, a] =>
+    match lim n a with
+    | some x =>
+      let k := x.length
+      let s := (toInt x).natAbs * (toInt x).natAbs
+      let m := B ^ k
+      both s!"{optTok (iCheckedSquare x)} {limbsHex (iWrappingSquare x)} {limbsHex (iSaturatingSquare x)}"
+           s!"{if s < m then natToHex s else "none"} {natToHex (s % m)} {natToHex (if s < m then s else m - 1)}"
+    | none => badArgs
+  | "c13.widening_square", [n, a] =>
+    match lim n a with
+    | some x => both (limbsHex (iWideningSquare x)) (natToHex ((toInt x).natAbs * (toInt x).natAbs))
+    | none => badArgs
+  | "c13.ck_mul", [n, a, b] =>
+    match lim n a, lim n b with
+    | some x, some y => both (optTok (iCheckedMul x y)) (encOpt x.length (toInt x * toInt y))
+    | _, _ => badArgs
+  | "c13.from_prim", [n, k, x] =>
+    match n.toNat?, k.toNat?, hexToNat? x with
+    | some n, some k, some x =>
+      let x := x % 2 ^ k
+      let v : Int := if 2 ^ (k - 1) ≤ x then (x : Int) - ((2 ^ k : Nat) : Int) else (x : Int)
+      both (limbsHex (if k = 128 then iFromI128 x n else iFromPrim k x n)) (encI n v)
+    | _, _, _ => badArgs
+  | "c13.resize", [n, a, t] =>
+    match lim n a, t.toNat? with
+    | some x, some t => both (limbsHex (iResize x t)) (encI t (toInt x))
+    | _, _ => badArgs
+  | "c13.split_mul", [n, a, m, b] =>
+    match lim n a, lim m b with
+    | some x, some y =>
+      let r := iSplitMul x y
+      let p := (toInt x).natAbs * (toInt y).natAbs
+      both s!"{limbsHex r.1} {limbsHex r.2.1} {choiceTok r.2.2}"
+           s!"{natToHex (p % B ^ x.length)} {natToHex (p / B ^ x.length)} {bit (decide (toInt x < 0) != decide (toInt y < 0))}"
+    | _, _ => badArgs
+  | "c13.checked_mul", [n, a, m, b] =>
+    match lim n a, lim m b with
+    | some x, some y => both (optTok (iCheckedMul x y)) (encOpt x.length (toInt x * toInt y))
+    | _, _ => badArgs
+  | "c13.widening_mul", [n, a, m, b] =>
+    match lim n a, lim m b with
+    | some x, some y => both (limbsHex (iWideningMul x y)) (encI (x.length + y.length) (toInt x * toInt y))
+    | _, _ => badArgs
+  | "c13.split_mul_uint", [n, a, m, b] =>
+    match lim n a, lim m b with
+    | some x, some y =>
+      let r := iSplitMulUint x y
+      let p := (toInt x).natAbs * val y
+      both s!"{limbsHex r.1} {limbsHex r.2.1} {choiceTok r.2.2}"
+           s!"{natToHex (p % B ^ x.length)} {natToHex (p / B ^ x.length)} {bit (decide (toInt x < 0))}"
+    | _, _ => badArgs
+  | "c13.split_mul_uint_right", [n, a, m, b] =>
+    match lim n a, lim m b with
+    | some x, some y =>
+      let r := iSplitMulUintRight x y
+      let p := (toInt x).natAbs * val y
+      both s!"{limbsHex r.1} {limbsHex r.2.1} {choiceTok r.2.2}"
+           s!"{natToHex (p % B ^ y.length)} {natToHex (p / B ^ y.length)} {bit (decide (toInt x < 0))}"
+    | _, _ => badArgs
+  | "c13.checked_mul_uint", [n, a, m, b] =>
+    match lim n a, lim m b with
+    | some x, some y => both (optTok (iCheckedMulUint x y)) (encOpt x.length (toInt x * (val y : Int)))
+    | _, _ => badArgs
+  | "c13.checked_mul_uint_right", [n, a, m, b] =>
+    match lim n a, lim m b with
+    | some x, some y => both (optTok (iCheckedMulUintRight x y)) (encOpt y.length (toInt x * (val y : Int)))
+    | _, _ => badArgs
+  | "c13.widening_mul_uint", [n, a, m, b] =>
+    match lim n a, lim m b with
+    | some x, some y =>
+      both (limbsHex (iWideningMulUint x y)) (encI (x.length + y.length) (toInt x * (val y : Int)))
+    | _, _ => badArgs
+  | _, _ => none
 
 end CB
